@@ -224,14 +224,27 @@ def run_grid(ctx, desc, nontrivial):
         bounds = thetas
     b = (np.array(bins[::-1] if desc["decreasing"] else bins, float) * SC)
     target = b if desc["target_as"] == "ndarray" else xr.DataArray(b, dims=["dens_lev"], name="dens_lev")
+    if desc["target_as"] != "ndarray" and desc["dseed"] % 3 != 0:
+        # the bins may carry coordinate labels along their own dimension that are not their values (and a scalar coordinate)
+        target = target.assign_coords(dens_lev=("dens_lev", np.arange(len(b)) if desc["dseed"] % 3 == 1 else 500.0 - 3.5 * np.arange(len(b))))
+        if desc["dseed"] % 5 == 2:
+            target = target.assign_coords(reference_level=0.0)
+    # options documented as "only for method='linear' and 'log'" change nothing in the conservative method
+    if desc["dseed"] % 4 == 2:
+        tdkw_opts = {"bypass_checks": True}
+    elif desc["dseed"] % 4 == 3:
+        tdkw_opts = {"mask_edges": False, "bypass_checks": desc["dseed"] % 8 == 3}
+    else:
+        tdkw_opts = {}
     newdim = ("z_ou" if omit else "dens") if desc["target_as"] == "ndarray" else "dens_lev"
     feats = features(desc)
-    ctx.judged(feats + (desc["dask"], bool(desc["extra_pos"]), omit, (not omit) and desc["dseed"] % 2 == 1), nontrivial)
-    tdkw = {} if omit else {"target_data": td}
+    ctx.judged(feats + (desc["dask"], bool(desc["extra_pos"]), omit, (not omit) and desc["dseed"] % 2 == 1, tuple(sorted(tdkw_opts.items())),
+                        desc["target_as"] != "ndarray" and desc["dseed"] % 3 != 0), nontrivial)
     if desc["dask"]:
         da = da.chunk({"col": 1, "e": 1})
         if desc["dseed"] % 4 != 1:
             td = td.chunk({"col": 1})  # (in a quarter of the lazy cases the target_data stays in memory next to lazy data)
+    tdkw = dict(tdkw_opts) if omit else dict(tdkw_opts, target_data=td)
     tdv = np.array(td.values)
     keep = (data.copy(), tdv.copy(), b.copy())
     warm = (not omit) and desc["dseed"] % 2 == 1
